@@ -113,6 +113,18 @@ CHECKS["C09"] = dict(
     design="4 (C09), 5 (D5, D6 fixed, D12)",
     note="'nothing was written' is exact because the connection is an in-memory net.Conn.")
 
+CHECKS["C19"] = dict(
+    engine="kafka",
+    technique="Lean 4 proof (proto3 wire round trips, framing, count/order by induction over streams) + byte-exact differential correspondence with the real producer and consumer; one known finding",
+    text="24 theorems on a Lean model of the producer path with a proto3 encoder and an independent decoder for the two shipped schemas (field "
+         "numbers and the element-name mapping regenerated from flow.pb.go / flowtype*.go by tools/protofacts and tied by tie_* lemmas): "
+         "varint_round_trip, frame_exact, proto_round_trip, count_and_order_partial (one payload per data record, in order, none for templates, "
+         "under the explicit ValidUTF8 guard), consumer_recovers, model_satisfies_spec, and nonutf8_record_dropped / "
+         "count_and_order_full_strength_fails (the full statement is false: known finding D14). The real PublishIPFIXMessages with a recording "
+         "sarama.AsyncProducer and the real consumer decoder are compared byte for byte with the model on every stream.",
+    design="4 (C19), 5 (D14)",
+    note="google.golang.org/protobuf and sarama are modelled (byte equality on every run), not verified; payloads < 2^32 bytes.")
+
 NOT_YET = {}
 
 
